@@ -76,8 +76,13 @@ def run_both(I: Interp, fn: Any, args: list[Any], post: Callable[[Any], Any],
         except PyExc as e:
             outs.append("raise:" + e.exc.cls.__name__)
     ex.run(harness)
+    # feasibility is over-approximated (uninterpreted width functions): concrete arguments may
+    # leave more than one path; CPython's outcome has to be one of them
+    if nat in outs:
+        return nat, nat
     if len(set(outs)) != 1:
-        return nat, f"{len(outs)} paths for concrete arguments: {sorted(set(outs))[:3]}"
+        return nat, f"{len(outs)} paths for concrete arguments, none with CPython's outcome: " \
+                    f"{sorted(set(outs))[:3]}"
     return nat, outs[0]
 
 
